@@ -202,7 +202,7 @@ def countdown_pick(ctx, se):
     ic = lp["init_call"]
     R_old = se.call_old.get((ic[3][:2], 0))
     ii = se.term_info.get(ic[3][1], {})
-    la = i(i.get("locargs") or (("?",),))[0]
+    la = (ii.get("locargs") or (("?",),))[0]
     R_loc = la[1] if la[0] == "ref" else None
     if R_old is None or R_loc is None:
         return None
